@@ -65,7 +65,7 @@ def budget(tier):
 def _gen(g):
     n = g.int(1, 6)
     calls = [{"abandon": g.chance(35), "mode": g.weighted([(65, "value"), (22, "raise"), (13, "retexc")]),
-              "cb": g.weighted([(60, None), (20, "run_sync"), (20, "run")]), "cc": g.chance(35),
+              "cb": g.weighted([(56, None), (18, "run_sync"), (18, "run"), (8, "run_shielded")]), "cc": g.chance(35),
               "nest": g.chance(40), "shielded": g.chance(30)} for _ in range(n)]
     if g.chance(12):
         # targeted shapes: a caller survives the cancellation of its first call and issues a second one while the
@@ -83,6 +83,18 @@ def _gen(g):
         return {"config": g.choice(["S", "S", "U"]), "total": g.choice([1, 1, 2]), "default": g.chance(25),
                 "delays": [g.int(0, 3) for _ in range(g.int(0, 5))], "calls": calls, "ctl": ctl + rest,
                 "callers": [[0, 1], [2]], "after": {"2": 1} if g.chance(70) else {}}
+    if g.chance(8):
+        # targeted shape: the thread function calls back into the loop with a coroutine that shields its work; the
+        # caller is cancelled while that work is parked; (optionally) another call queues for the token meanwhile
+        calls = [dict(c, cb=None) for c in calls[:2]]
+        while len(calls) < 2:
+            calls.append({"abandon": False, "mode": "value", "cb": None, "cc": False, "nest": False, "shielded": False})
+        calls[0].update(cb="run_shielded", abandon=False, shielded=False, mode="value")
+        ctl = [["entered", 0], ["open", 0], ["cbwait", 0], ["cancel", 0], ["yield", g.int(1, 3)], ["settle", 0],
+               ["entered", 1], ["cbopen", 0], ["open", 1]]
+        return {"config": g.choice(["S", "S", "U"]), "total": 1, "default": g.chance(25),
+                "delays": [g.int(0, 3) for _ in range(g.int(0, 5))], "calls": calls, "ctl": ctl,
+                "callers": [[0], [1]], "after": {"1": 0}}
     ctl = []
     for _ in range(g.int(2, 3 * n + 2)):
         k = g.weighted([(40, "open"), (22, "cancel"), (8, "ncancel"), (20, "entered"), (12, "yield"), (6, "settle")])
@@ -121,7 +133,8 @@ def run_once(case, out, stats):
     lock = threading.Lock()
     st = {"running": set(), "max_nonabandoned": 0, "entered": [threading.Event() for _ in range(n)],
           "finished": [threading.Event() for _ in range(n)], "gate": [threading.Event() for _ in range(n)],
-          "ctx": {}, "cc": {}, "cb": {}, "abandoned": set(), "cancel_before_gate": set(), "exc": {}}
+          "ctx": {}, "cc": {}, "cb": {}, "abandoned": set(), "cancel_before_gate": set(), "exc": {},
+          "cb_entered": {}, "cbgate": {}}
     outcome = {}
     scopes = {}
     cancel_requested = set()
@@ -154,6 +167,18 @@ def run_once(case, out, stats):
                         await asyncio.sleep(0)
                         return ("loop", i, threading.get_ident())
                     st["cb"][i] = from_thread.run(back)
+                elif spec["cb"] == "run_shielded":
+                    async def back_shielded():
+                        # work that must not be interrupted: the caller's cancellation is held back by the shield
+                        with CancelScope(shield=True):
+                            st["cb_entered"][i] = True
+                            for _ in range(2000):
+                                if st["cbgate"].get(i):
+                                    break
+                                await anyio.sleep(0.001)
+                            await asyncio.sleep(0)
+                        return ("loop", i, threading.get_ident())
+                    st["cb"][i] = from_thread.run(back_shielded)
             except BaseException as e:  # noqa: BLE001
                 # from_thread.run joins the caller's cancel scope: a cancelled caller makes it raise in the thread
                 st["cb"][i] = "raised:" + type(e).__name__
@@ -276,6 +301,14 @@ def run_once(case, out, stats):
                             with lock:
                                 st["abandoned"].add(a)
                         sc.cancel()
+                elif k == "cbwait":
+                    t0 = time.monotonic()
+                    while not st["cb_entered"].get(a) and a not in outcome and time.monotonic() - t0 < 1.0:
+                        await anyio.sleep(0.001)
+                    if st["cb_entered"].get(a) and a not in outcome:
+                        stats["callback_parked_behind_shield"] += 1
+                elif k == "cbopen":
+                    st["cbgate"][a] = True
                 elif k == "settle":
                     # let thread->loop reports arrive, then check the limiter's books: every call in progress either
                     # holds a token or waits for one (a call spends at most one cycle before it reaches the limiter)
@@ -322,6 +355,7 @@ def run_once(case, out, stats):
             for i in range(n):
                 gate_opened.add(i)
                 st["gate"][i].set()
+                st["cbgate"][i] = True
 
         try:
             with anyio.fail_after(30):
@@ -366,6 +400,10 @@ def run_once(case, out, stats):
                 r = st["cb"].get(i)
                 if isinstance(r, str) and r.startswith("raised:") and i in native_requested:
                     pass        # the orphaned function's caller context is gone
+                elif spec["cb"] == "run_shielded" and st["cb_entered"].get(i) and not spec["abandon"] \
+                        and not (isinstance(r, tuple) and r[:2] == ("loop", i) and r[2] == loop_ident):
+                    out.bad("from-thread-callback-wrong", "shield-broken",
+                            f"call {i}: the coroutine run through from_thread.run() shields its work, yet got {r!r}")
                 elif isinstance(r, str) and r.startswith("raised:Cancelled") and i in cancel_requested:
                     pass
                 elif not (isinstance(r, tuple) and r[:2] == ("loop", i) and r[2] == loop_ident):
@@ -434,7 +472,7 @@ def run_case(case) -> Outcome:
     out = Outcome()
     stats = dict.fromkeys(["cancelled_while_running", "cancelled_before_start", "more_calls_than_tokens",
                            "watchdog_rerun", "native_cancel_while_running", "caller_with_several_calls",
-                           "stall_rerun", "settle_checks"], 0)
+                           "stall_rerun", "settle_checks", "callback_parked_behind_shield"], 0)
     for attempt in range(3):
         trial = Outcome()
         try:
